@@ -36,3 +36,19 @@ Definition check11p (c : case11p) : nat :=
   | Some (v, _) => if zl_eqb v c.(y_grad) then 0%nat else 1%nat
   | None => if zl_eqb (repeat 0 c.(y_n)) c.(y_grad) then 0%nat else 1%nat
   end.
+
+(* basic index expressions: the model of NumPy's resolution (BasicIndex.v) against the positions NumPy reads *)
+From AG Require Import BasicIndex.
+Record case11b := { b_dims : list nat; b_items : list bitem; b_sigma : list nat }.
+Fixpoint nl_eqb (a b : list nat) : bool :=
+  match a, b with
+  | [], [] => true
+  | x :: a', y :: b' => Nat.eqb x y && nl_eqb a' b'
+  | _, _ => false
+  end.
+(* 0: the model computes the positions NumPy reads; 1: it does not (the model of NumPy's indexing is wrong or NumPy changed) *)
+Definition check11b (c : case11b) : nat :=
+  match basic_sigma c.(b_dims) c.(b_items) with
+  | Some s => if nl_eqb s c.(b_sigma) then 0%nat else 1%nat
+  | None => 1%nat
+  end.
